@@ -493,7 +493,7 @@ def handleFindInfo (srv : Server) (cap : Nat) (op : UInt8) (p : Bytes) : Resp :=
       let only16 := a0.uuid != 1
       let tuple := if only16 then 4 else 18
       if cap < 2 then .oobWrite
-      else match infoLoop srv only16 tuple (firstIndex srv e) (cap - 2) srv.attrs.length (s - 1) [] with
+      else match infoLoop srv only16 tuple (some (lastHandleIndex srv e)) (cap - 2) srv.attrs.length (s - 1) [] with
         | none => .assertFail
         | some acc => emit cap (0x05 :: (if only16 then 0x01 else 0x02) :: acc)
 
@@ -537,10 +537,12 @@ structure Prim where
   ads     : Nat
 
 -- src: server.hpp:collect_primary_services::each + service.hpp:read_primary_service_response
-def primLoop (startIdx endHandle room : Nat) : List (Nat × Nat × Bytes) → Prim → Prim
+-- (`endIdx` = `last_handle_index( ending_handle )` since repo fix 4b0715c; before that fix the
+--  ending *handle* was compared with attribute *indices*)
+def primLoop (startIdx endIdx room : Nat) : List (Nat × Nat × Bytes) → Prim → Prim
   | [], st => st
   | (i, n, u) :: rest, st =>
-    if !st.stopped ∧ startIdx ≤ i ∧ i ≤ endHandle then
+    if !st.stopped ∧ startIdx ≤ i ∧ i ≤ endIdx then
       let s128 := u.length = 16
       let st1 : Prim :=
         if st.first then { st with is128 := s128, first := false, ads := if s128 then 20 else 6 }
@@ -551,8 +553,8 @@ def primLoop (startIdx endHandle room : Nat) : List (Nat × Nat × Bytes) → Pr
         if st1.is128 = s128 ∧ room - st1.acc.length ≥ ads then
           { st1 with acc := st1.acc ++ le16 (i + 1) ++ le16 (i + n) ++ u.take (room - st1.acc.length - 4) }
         else st1
-      primLoop startIdx endHandle room rest st2
-    else primLoop startIdx endHandle room rest st
+      primLoop startIdx endIdx room rest st2
+    else primLoop startIdx endIdx room rest st
 
 -- src: server.hpp:handle_read_by_group_type_request
 def handleReadByGroup (srv : Server) (cap : Nat) (op : UInt8) (p : Bytes) : Resp :=
@@ -565,7 +567,7 @@ def handleReadByGroup (srv : Server) (cap : Nat) (op : UInt8) (p : Bytes) : Resp
       if p.length = 21 ∨ t ≠ 0x2800 then errorResponse cap op 0x10 s
       else if cap < 2 then .oobWrite
       else
-        let st := primLoop (s - 1) e (cap - 2) (servicesFrom srv.attrs 0) ⟨[], false, true, true, 0⟩
+        let st := primLoop (s - 1) (lastHandleIndex srv e) (cap - 2) (servicesFrom srv.attrs 0) ⟨[], false, true, true, 0⟩
         if st.acc.isEmpty then errorResponse cap op 0x0A s
         else emit cap (0x11 :: UInt8.ofNat st.ads :: st.acc)
 
